@@ -227,6 +227,7 @@ Lemma eth_verify_ok : forall v c t a acc x,
      (v_check_sender v = true -> sender = a)).
 Proof.
   intros v c t a acc x H. unfold Auth.eth_verify in H.
+  destruct (is_multi (s_mode x)); [discriminate|].
   apply bind_ok in H as [[] [_ H]].
   destruct (eth_prepare v t a acc x (doc_of c t x acc)) as [r|d] eqn:P.
   - subst r. right. eapply eth_prepare_done; eauto.
@@ -254,7 +255,8 @@ Proof.
     destruct (a_pub acc) as [k|] eqn:P; [|discriminate].
     destruct (s_seq x =? a_seq acc) eqn:Q; simpl in H; [|discriminate]. apply Z.eqb_eq in Q.
     destruct (addr_of_pk k =? a) eqn:A; simpl in H.
-    + apply Z.eqb_eq in A. apply bind_ok in H as [[] [_ H]].
+    + apply Z.eqb_eq in A. destruct (is_multi (s_mode x) && negb (is_multi_key k)); [discriminate|].
+      apply bind_ok in H as [[] [_ H]].
       destruct (verify k (doc_of c t x acc) (s_sig x)) eqn:V; [|discriminate].
       constructor.
       * exists acc, k. repeat split; auto.
@@ -475,7 +477,7 @@ End Proofs.
 (* ------------------------------------------------------------------ witnesses (concrete oracles) *)
 Definition w_verify : pkey -> signdoc -> sigv -> bool := fun _ _ _ => false.
 Definition w_recover : digest -> sigv -> option addr := fun _ _ => None.
-Definition w_addr_of_pk (k : pkey) : addr := match k with Secp z => z | Ed z => z end.
+Definition w_addr_of_pk (k : pkey) : addr := match k with Secp z => z | Ed z => z | Multi z => z end.
 (* raw transaction 7 is signed by the attacker (Ethereum address 666), raw transaction 8 by the
    owner of the Ethereum-style account 100 *)
 Definition w_eth_sender (r : Z) : option addr := if r =? 7 then Some 666 else if r =? 8 then Some 100 else None.
@@ -574,7 +576,7 @@ Proof. repeat split. Qed.
    The spec checker of Model/C02Check.v accepts every step of the repaired model
    (connects "the real trace passes the checker" with the theorems above). *)
 Lemma pkey_eqb_eq : forall a b, pkey_eqb a b = true <-> a = b.
-Proof. intros [x|x] [y|y]; simpl; split; intro H; try discriminate; try (f_equal; lia); inversion H; lia. Qed.
+Proof. intros [x|x|x] [y|y|y]; simpl; split; intro H; try discriminate; try (f_equal; lia); inversion H; lia. Qed.
 Lemma mode_eqb_eq : forall a b, mode_eqb a b = true <-> a = b.
 Proof. intros [] []; simpl; split; intro H; try discriminate; auto. Qed.
 Lemma doc_eqb_eq : forall a b, doc_eqb a b = true <-> a = b.
@@ -636,11 +638,9 @@ Proof.
     unfold doc_of, acc_number. simpl. rewrite (proj2 (mode_eqb_eq _ _) eq_refl), !Z.eqb_refl. reflexivity.
   - apply orb_true_iff; left. apply orb_true_iff; right.
     rewrite S. simpl. unfold eth_digest_of, doc_of, acc_number in Dg. simpl in Dg.
-    destruct (s_mode x).
-    + destruct (t_msgs t) as [|m r]; [discriminate|]. destruct m as [id l|]; destruct r; try discriminate.
-      inversion Dg; subst d. rewrite R. apply Z.eqb_refl.
-    + inversion Dg; subst d. rewrite R. apply Z.eqb_refl.
-    + inversion Dg; subst d. rewrite R. apply Z.eqb_refl.
+    destruct (s_mode x); try (inversion Dg; subst d; rewrite R; apply Z.eqb_refl).
+    destruct (t_msgs t) as [|m r]; [discriminate|]. destruct m as [id l|]; destruct r; try discriminate.
+    inversion Dg; subst d. rewrite R. apply Z.eqb_refl.
   - apply orb_true_iff; right. rewrite Md, M, Rk, Se. simpl in N. rewrite N, Ch. rewrite !Z.eqb_refl. reflexivity.
 Qed.
 
@@ -689,3 +689,291 @@ Proof.
   - rewrite ostate_same_refl. reflexivity.
 Qed.
 End CheckerSound.
+
+(* ------------------------------------------------------------------------------------------
+   "authorised EXACTLY that transaction": what each signing scheme covers.
+   [t_id] identifies the signed content (body bytes and auth-info bytes: messages, memo, timeout,
+   fee, fee payer, signer infos).  The binding hypotheses say that one signature is a signature of
+   one thing only; they are stated in the theorems that use them. *)
+Section Exact.
+Variable verify : pkey -> signdoc -> sigv -> bool.
+Variable recover : digest -> sigv -> option addr.
+Variable addr_of_pk : pkey -> addr.
+Variable eth_sender : Z -> option addr.
+Notation ante := (Auth.ante verify recover addr_of_pk eth_sender).
+
+Definition sig_binds_doc : Prop := forall k d d' g, verify k d g = true -> verify k d' g = true -> d = d'.
+Definition sig_binds_digest : Prop := forall d d' g a, recover d g = Some a -> recover d' g = Some a -> d = d'.
+
+(* key path (DIRECT, LEGACY_AMINO_JSON): the signature covers the whole content.  Two transactions
+   admitted from the same state on the same signature of a signer whose recorded key controls its
+   address are the same transaction. *)
+Theorem exact_key_path : forall v c s t1 t2 s1 s2, sig_binds_doc ->
+  sound_for v t1 = true -> sound_for v t2 = true ->
+  ante v c s t1 = Ok s1 -> ante v c s t2 = Ok s2 ->
+  forall i a x1 x2 acc k,
+  nth_error (signers t1) i = Some a -> nth_error (t_slots t1) i = Some x1 ->
+  nth_error (signers t2) i = Some a -> nth_error (t_slots t2) i = Some x2 ->
+  get_acc s a = Some acc -> a_pub acc = Some k -> addr_of_pk k = a ->
+  s_sig x1 = s_sig x2 ->
+  t_id t1 = t_id t2 /\ s_mode x1 = s_mode x2.
+Proof.
+  intros v c s t1 t2 s1 s2 B F1 F2 H1 H2 i a x1 x2 acc k A1 X1 A2 X2 G P A E.
+  destruct (key_on_record_decides _ _ _ _ _ _ _ _ _ F1 H1 i a x1 acc k A1 X1 G P A) as [_ V1].
+  destruct (key_on_record_decides _ _ _ _ _ _ _ _ _ F2 H2 i a x2 acc k A2 X2 G P A) as [_ V2].
+  rewrite E in V1. pose proof (B _ _ _ _ V1 V2) as D. unfold doc_of in D. inversion D; auto.
+Qed.
+
+(* Ethereum path, EIP-712: the signature covers the message (and the sequence, chain id 8789) *)
+Theorem exact_eip712_covers_message : forall c s t1 t2 s1 s2, sig_binds_digest ->
+  ante repaired c s t1 = Ok s1 -> ante repaired c s t2 = Ok s2 ->
+  forall a x1 x2 acc k id1 l1 id2 l2,
+  signers t1 = [a] -> t_slots t1 = [x1] -> signers t2 = [a] -> t_slots t2 = [x2] ->
+  t_msgs t1 = [MPlain id1 l1] -> t_msgs t2 = [MPlain id2 l2] ->
+  s_mode x1 = MDirect -> s_mode x2 = MDirect ->
+  get_acc s a = Some acc -> a_pub acc = Some k -> addr_of_pk k <> a ->
+  s_sig x1 = s_sig x2 ->
+  id1 = id2.
+Proof.
+  intros c s t1 t2 s1 s2 B H1 H2 a x1 x2 acc k id1 l1 id2 l2 S1 L1 S2 L2 M1 M2 D1 D2 G P NA E.
+  assert (W : forall t x s' id l, ante repaired c s t = Ok s' -> signers t = [a] -> t_slots t = [x] ->
+              t_msgs t = [MPlain id l] -> s_mode x = MDirect -> recover (DEip id (a_seq acc)) (s_sig x) = Some a).
+  { intros t x s' id l H S L M D.
+    destruct (ante_checked verify recover addr_of_pk eth_sender repaired c s t s' eq_refl H) as (sx & Hp & F).
+    rewrite S, L in F. inversion F as [|? ? ? ? C _]; subst.
+    destruct C as (acc1 & k1 & G1 & P1 & Q & Dj).
+    rewrite S, L in Hp.
+    assert (G1' : get_acc sx a = Some acc).
+    { eapply set_pubkeys_keeps_key; eauto. }
+    rewrite G1' in G1. inversion G1; subst acc1. rewrite P in P1. inversion P1; subst k1.
+    destruct Dj as [[A _]|[_ [[_ (d & Dg & R)]|(id' & snd & raw & M' & _)]]]; [contradiction| |congruence].
+    unfold eth_digest_of in Dg. rewrite D, M in Dg. inversion Dg; subst d. exact R. }
+  pose proof (W _ _ _ _ _ H1 S1 L1 M1 D1) as R1. pose proof (W _ _ _ _ _ H2 S2 L2 M2 D2) as R2.
+  rewrite E in R1. pose proof (B _ _ _ _ R1 R2) as Dq. inversion Dq; auto.
+Qed.
+End Exact.
+
+(* ... but NOT the fee, the memo or anything else around the message: the full statement "two
+   transactions admitted from the same state on the same signature have the same content" is
+   REFUTED on the Ethereum paths, with oracles that satisfy both binding hypotheses *)
+Definition x_verify : pkey -> signdoc -> sigv -> bool := fun _ _ _ => false.
+Definition e_eip712_rewrapped : tx := mkTx 6 [MPlain 1 [100]] [mkSlot (Some (Secp 1)) MDirect 77 0] None.
+Definition e_raw_rewrapped : tx := mkTx 7 [MEth 2 100 (mkRaw 8 true 0 8789)] [mkSlot (Some (Secp 1)) MDirect 9 0] None.
+
+Lemma x_binds : sig_binds_doc x_verify /\ sig_binds_digest e_recover.
+Proof.
+  split; [intros k d d' g H; discriminate|].
+  intros d d' g a H1 H2. unfold e_recover in *.
+  destruct d as [m q|dd]; [|discriminate]. destruct d' as [m' q'|dd']; [|destruct m as [|[]|]; try discriminate; destruct q; discriminate].
+  destruct m as [|[| |]|]; try discriminate; destruct q; try discriminate.
+  destruct m' as [|[| |]|]; try discriminate; destruct q'; try discriminate. reflexivity.
+Qed.
+
+Theorem exact_refuted_eip712 :
+  exists verify recover addr_of_pk eth_sender c s t1 t2 s1 s2,
+    sig_binds_doc verify /\ sig_binds_digest recover /\
+    Auth.ante verify recover addr_of_pk eth_sender repaired c s t1 = Ok s1 /\
+    Auth.ante verify recover addr_of_pk eth_sender repaired c s t2 = Ok s2 /\
+    signers t1 = signers t2 /\ t_slots t1 = t_slots t2 /\ t_msgs t1 = t_msgs t2 /\ t_id t1 <> t_id t2.
+Proof.
+  exists x_verify, e_recover, w_addr_of_pk, w_eth_sender, w_ctx, w_state, e_eip712, e_eip712_rewrapped. do 2 eexists.
+  destruct x_binds as [B1 B2]. repeat split; auto; try (vm_compute; reflexivity). vm_compute. discriminate.
+Qed.
+Theorem exact_refuted_ethraw :
+  exists verify recover addr_of_pk eth_sender c s t1 t2 s1 s2,
+    sig_binds_doc verify /\ sig_binds_digest recover /\
+    Auth.ante verify recover addr_of_pk eth_sender repaired c s t1 = Ok s1 /\
+    Auth.ante verify recover addr_of_pk eth_sender repaired c s t2 = Ok s2 /\
+    signers t1 = signers t2 /\ t_slots t1 = t_slots t2 /\ t_msgs t1 = t_msgs t2 /\ t_id t1 <> t_id t2.
+Proof.
+  exists x_verify, e_recover, w_addr_of_pk, w_eth_sender, w_ctx, w_state, e_raw_honest, e_raw_rewrapped. do 2 eexists.
+  destruct x_binds as [B1 B2]. repeat split; auto; try (vm_compute; reflexivity). vm_compute. discriminate.
+Qed.
+
+(* ------------------------------------------------------------------------------------------
+   The uint64 sequence number.  [replay_rejected] carries the bound [seq_room]; without it the
+   statement is false: IncrementSequenceDecorator wraps 2^64-1 to 0 (observed on the real code for
+   an account whose sequence was set to 2^64-1, which only a genesis file can do), and after 2^64
+   accepted transactions of the account the first one is accepted again. *)
+Definition u_verify : pkey -> signdoc -> sigv -> bool := fun _ _ _ => true.
+Definition u_state (q : Z) : state := [(200, mkAcc (Some (Secp 200)) q 6)].
+Definition u_tx (q : Z) : tx := mkTx q [MPlain 1 [200]] [mkSlot None MDirect 55 q] None.
+Fixpoint u_ops (q : Z) (n : nat) : list op :=
+  match n with O => [] | S n' => OpTx (u_tx q) :: u_ops (wrap64 (q + 1)) n' end.
+
+Lemma u_ante : forall v q, Auth.ante u_verify w_recover w_addr_of_pk w_eth_sender v w_ctx (u_state q) (u_tx q) = Ok (u_state (wrap64 (q + 1))).
+Proof.
+  intros v q. unfold Auth.ante, u_state, u_tx, Auth.sig_verify. simpl.
+  rewrite Z.eqb_refl. simpl. reflexivity.
+Qed.
+Lemma u_run : forall v n q, 0 <= q < two64 ->
+  Auth.run u_verify w_recover w_addr_of_pk w_eth_sender v w_ctx (u_state q) (u_ops q n) = u_state (wrap64 (q + Z.of_nat n)).
+Proof.
+  intros v n. induction n as [|n IH]; intros q B.
+  - simpl. rewrite Z.add_0_r, wrap64_small; auto.
+  - change (u_ops q (S n)) with (OpTx (u_tx q) :: u_ops (wrap64 (q + 1)) n).
+    change (Auth.run u_verify w_recover w_addr_of_pk w_eth_sender v w_ctx (u_state q) (OpTx (u_tx q) :: u_ops (wrap64 (q + 1)) n))
+      with (Auth.run u_verify w_recover w_addr_of_pk w_eth_sender v w_ctx
+              (Auth.step u_verify w_recover w_addr_of_pk w_eth_sender v w_ctx (u_state q) (OpTx (u_tx q))) (u_ops (wrap64 (q + 1)) n)).
+    assert (St : Auth.step u_verify w_recover w_addr_of_pk w_eth_sender v w_ctx (u_state q) (OpTx (u_tx q)) = u_state (wrap64 (q + 1))).
+    { unfold Auth.step. rewrite u_ante. reflexivity. }
+    rewrite St, IH.
+    + f_equal. unfold wrap64. rewrite Nat2Z.inj_succ, Z.add_mod_idemp_l by (unfold two64; lia). f_equal. lia.
+    + unfold wrap64. apply Z.mod_pos_bound. unfold two64. lia.
+Qed.
+
+Theorem sequence_wrap_refuted : forall v,
+  exists s t s' acc acc', Auth.ante u_verify w_recover w_addr_of_pk w_eth_sender v w_ctx s t = Ok s' /\
+    get_acc s 200 = Some acc /\ get_acc s' 200 = Some acc' /\ a_seq acc' < a_seq acc.
+Proof.
+  intros v. exists (u_state (two64 - 1)), (u_tx (two64 - 1)). eexists. do 2 eexists.
+  split; [apply u_ante|]. repeat split.
+Qed.
+
+Theorem replay_unbounded_refuted : forall v,
+  exists s t s' ops, Auth.ante u_verify w_recover w_addr_of_pk w_eth_sender v w_ctx s t = Ok s' /\
+    is_ok (Auth.ante u_verify w_recover w_addr_of_pk w_eth_sender v w_ctx
+             (Auth.run u_verify w_recover w_addr_of_pk w_eth_sender v w_ctx s' ops) t) = true.
+Proof.
+  intros v. exists (u_state 0), (u_tx 0), (u_state (wrap64 (0 + 1))), (u_ops (wrap64 (0 + 1)) (Z.to_nat (two64 - 1))).
+  split; [apply u_ante|].
+  assert (W1 : wrap64 (0 + 1) = 1) by (apply wrap64_small; unfold two64; lia).
+  rewrite W1, u_run by (unfold two64; lia).
+  rewrite Z2Nat.id by (unfold two64; lia).
+  replace (1 + (two64 - 1)) with two64 by lia.
+  assert (W0 : wrap64 two64 = 0) by (unfold wrap64; apply Z.mod_same; unfold two64; lia).
+  rewrite W0, u_ante. reflexivity.
+Qed.
+
+(* ------------------------------------------------------------------------------------------
+   Full soundness of the spec checker: it accepts every HISTORY of the repaired model, including
+   the replay clause and the CheckTx clause. *)
+Lemma set_acc_keys : forall s a x, map fst (set_acc s a x) = map fst s.
+Proof. induction s as [|[b y] r IH]; intros a x; simpl; auto. destruct (b =? a); simpl; [auto|rewrite IH; auto]. Qed.
+Lemma set_pubkeys_keys : forall sl sg s s1, set_pubkeys s sg sl = Ok s1 -> map fst s1 = map fst s.
+Proof.
+  induction sl as [|x sl IH]; intros sg s s1 H; simpl in H; [inversion H; auto|].
+  destruct sg as [|b sg]; [discriminate|]. destruct (s_att x); [|eauto].
+  destruct (get_acc s b) as [acc|]; [|discriminate]. destruct (a_pub acc); [eauto|].
+  rewrite (IH _ _ _ H). apply set_acc_keys.
+Qed.
+Lemma increment_keys : forall sg s s', increment_seqs s sg = Ok s' -> map fst s' = map fst s.
+Proof.
+  induction sg as [|b sg IH]; intros s s' H; simpl in H; [inversion H; auto|].
+  destruct (get_acc s b); [|discriminate]. rewrite (IH _ _ H). apply set_acc_keys.
+Qed.
+Lemma state_of_obs_of : forall bal s, state_of (obs_of bal s) = s.
+Proof. induction s as [|[a [p q n]] r IH]; simpl; auto. rewrite IH. reflexivity. Qed.
+Lemma obs_of_keys : forall bal s, map fst (obs_of bal s) = map fst s.
+Proof. induction s as [|[a x] r IH]; simpl; auto. rewrite IH; auto. Qed.
+Lemma state_of_keys : forall o, map fst (state_of o) = map fst o.
+Proof. induction o as [|[a x] r IH]; simpl; auto. rewrite IH; auto. Qed.
+
+Section CheckerSoundFull.
+Variable T : tabs.
+Variable g : bool.
+Notation tante := (Auth.ante (t_verify T) (t_recover T) (t_addr_of_pk T) (t_eth_sender T) repaired (mkCtx 0 g)).
+
+Lemma tante_keys : forall s t s', tante s t = Ok s' -> map fst s' = map fst s.
+Proof.
+  intros s t s' H. destruct (ante_ok_parts _ _ _ _ _ _ _ _ _ H) as (s1 & _ & Hp & _ & Hi).
+  rewrite (increment_keys _ _ _ Hi). eapply set_pubkeys_keys; eauto.
+Qed.
+
+Fixpoint model_trace (pre : ostate) (l : list (tx * (addr -> Z))) : list stepobs :=
+  match l with
+  | [] => []
+  | (t, bal) :: r => let o := model_step T g pre t bal in o :: model_trace (so_post o) r
+  end.
+
+Definition room (s : state) (n : Z) : Prop := forall a acc, get_acc s a = Some acc -> 0 <= a_seq acc /\ a_seq acc + n < two64.
+(* the first signer's slot claims a sequence the account has already passed *)
+Definition first_seq_lt (s : state) (t0 : tx) : Prop :=
+  exists a0 sg x0 sl acc, signers t0 = a0 :: sg /\ t_slots t0 = x0 :: sl /\ get_acc s a0 = Some acc /\ s_seq x0 < a_seq acc.
+(* content identifiers are consistent: the same id means the same signers and claimed sequences *)
+Definition id_consistent (txs : list tx) : Prop :=
+  forall t1 t2, In t1 txs -> In t2 txs -> t_id t1 = t_id t2 ->
+    signers t1 = signers t2 /\ map s_seq (t_slots t1) = map s_seq (t_slots t2).
+
+(* one model step: sequences move by at most one and never down, while there is room *)
+Lemma tante_seq_step : forall s t s' n, tante s t = Ok s' -> room s (1 + n) -> 0 <= n ->
+  room s' n /\ (forall a acc, get_acc s a = Some acc -> exists acc', get_acc s' a = Some acc' /\ a_seq acc <= a_seq acc').
+Proof.
+  intros s t s' n H R N. split.
+  - intros a acc' G'. pose proof (ante_effect_seq _ _ _ _ _ _ _ _ _ H a) as E. unfold sn in E. rewrite G' in E.
+    destruct (get_acc s a) as [acc|] eqn:G; [|destruct (mem_addr a (signers t)); discriminate].
+    destruct (R a acc G) as [P B]. destruct (mem_addr a (signers t)); simpl in E; inversion E as [[E1 E2]].
+    + rewrite wrap64_small in E1 by lia. lia.
+    + lia.
+  - intros a acc G. pose proof (ante_effect_seq _ _ _ _ _ _ _ _ _ H a) as E. unfold sn in E. rewrite G in E.
+    destruct (R a acc G) as [P B].
+    destruct (get_acc s' a) as [acc'|]; [|destruct (mem_addr a (signers t)); discriminate].
+    exists acc'. split; auto. destruct (mem_addr a (signers t)); simpl in E; inversion E as [[E1 E2]].
+    + rewrite wrap64_small in E1 by lia. lia.
+    + lia.
+Qed.
+
+Lemma hist_sound : forall txs, id_consistent txs ->
+  forall l pre accepted, NoDup (map fst pre) -> room (state_of pre) (Z.of_nat (List.length l)) ->
+  incl (map fst l) txs ->
+  (forall id, In id accepted -> exists t0, In t0 txs /\ t_id t0 = id /\ first_seq_lt (state_of pre) t0) ->
+  hist_clauses T g pre accepted (model_trace pre l) = [].
+Proof.
+  intros txs IC. induction l as [|[t bal] r IH]; intros pre accepted ND R IN AC; [reflexivity|].
+  change (model_trace pre ((t, bal) :: r)) with (model_step T g pre t bal :: model_trace (so_post (model_step T g pre t bal)) r).
+  cbn [hist_clauses]. rewrite (chk_step_sound T g pre t bal ND). cbn [app].
+  assert (Int : In t txs) by (apply IN; left; reflexivity).
+  assert (INr : incl (map fst r) txs) by (intros z Hz; apply IN; right; exact Hz).
+  change (List.length ((t, bal) :: r)) with (S (List.length r)) in R. rewrite Nat2Z.inj_succ in R.
+  replace (Z.succ (Z.of_nat (List.length r))) with (1 + Z.of_nat (List.length r)) in R by lia.
+  unfold model_step. cbn [so_class so_tx so_post].
+  destruct (tante (state_of pre) t) as [s'|e|p] eqn:H; cbn [class_of].
+  - (* accepted: it cannot be a replay, and the invariant is re-established *)
+    destruct (ante_ok_first _ _ _ _ _ _ _ _ _ H) as (a0 & sg & x0 & sl & acc & SG & SL & G & Q).
+    assert (NR : existsb (Z.eqb (t_id t)) accepted = false).
+    { destruct (existsb (Z.eqb (t_id t)) accepted) eqn:Ex; auto. exfalso.
+      apply existsb_exists in Ex as [id [Iid Eid]]. apply Z.eqb_eq in Eid. subst id.
+      destruct (AC _ Iid) as (t0 & I0 & E0 & (a0' & sg' & x0' & sl' & acc' & SG' & SL' & G' & Q')).
+      destruct (IC t0 t I0 Int E0) as [Es Eq]. rewrite SG, SG' in Es. rewrite SL, SL' in Eq. simpl in Eq.
+      inversion Es; inversion Eq; subst. rewrite G in G'. inversion G'; subst. lia. }
+    rewrite NR. cbn [andb app]. simpl (0 =? 0).
+    destruct (tante_seq_step _ _ _ (Z.of_nat (List.length r)) H R (Nat2Z.is_nonneg _)) as [R' Mono].
+    apply IH; auto.
+    + rewrite obs_of_keys, (tante_keys _ _ _ H), state_of_keys. exact ND.
+    + rewrite state_of_obs_of. exact R'.
+    + rewrite state_of_obs_of. intros id [<-|Iid].
+      * exists t. split; auto. split; auto. exists a0, sg, x0, sl.
+        pose proof (ante_effect_seq _ _ _ _ _ _ _ _ _ H a0) as E. rewrite SG in E. simpl in E. rewrite Z.eqb_refl in E. simpl in E.
+        unfold sn in E. rewrite G in E. simpl in E. destruct (get_acc s' a0) as [acc1|]; [|discriminate].
+        simpl in E. inversion E as [[E1 E2]]. exists acc1. repeat split; auto.
+        destruct (R a0 acc G) as [P B]. rewrite wrap64_small in E1 by lia. lia.
+      * destruct (AC _ Iid) as (t0 & I0 & E0 & (a1 & sg1 & x1 & sl1 & acc1 & SG1 & SL1 & G1 & Q1)).
+        exists t0. split; auto. split; auto. destruct (Mono a1 acc1 G1) as (acc2 & G2 & Le).
+        exists a1, sg1, x1, sl1, acc2. repeat split; auto. lia.
+  - cbn [andb app]. simpl (1 =? 0). cbn [andb]. apply IH; auto.
+    intros a acc Ga. destruct (R a acc Ga). split; lia.
+  - cbn [andb app]. simpl (2 =? 0). cbn [andb]. apply IH; auto.
+    intros a acc Ga. destruct (R a acc Ga). split; lia.
+Qed.
+
+Theorem chk_sound : forall init l,
+  NoDup (map fst init) ->
+  seq_room (state_of init) (Z.of_nat (List.length l)) ->
+  id_consistent (map fst l) ->
+  case_clauses (mkHist g T (match l with (t, _) :: _ => class_of (tante (state_of init) t) | [] => -1 end) None init (model_trace init l)) = [].
+Proof.
+  intros init l ND SR IC. unfold case_clauses.
+  assert (R : room (state_of init) (Z.of_nat (List.length l))).
+  { intros a acc G. apply get_acc_In in G. unfold seq_room in SR. rewrite Forall_forall in SR. apply (SR _ G). }
+  unfold exact_clauses, check_clauses, check_tx_of. cbn [h_check_tx h_steps h_check h_tabs h_genesis h_init].
+  rewrite (hist_sound (map fst l) IC l init [] ND R (incl_refl _)) by (intros id []).
+  destruct l as [|[t bal] r]; [reflexivity|].
+  change (model_trace init ((t, bal) :: r)) with (model_step T g init t bal :: model_trace (so_post (model_step T g init t bal)) r).
+  cbn [so_tx model_step].
+  destruct (tante (state_of init) t) as [s'|e|p] eqn:H; cbn [class_of]; try reflexivity.
+  simpl (0 =? 0). cbv iota.
+  rewrite (auth_clauses_nil T g init t (List.length (signers t)) (signers t) (t_slots t) 0); [reflexivity|].
+  eapply Forall2_imp_in; [|eapply (accept_authorised _ _ _ _ repaired); [reflexivity|exact H]].
+  intros a x _ Au. apply authorised_checker; auto.
+Qed.
+End CheckerSoundFull.
